@@ -11,5 +11,5 @@ D == INSTANCE Derive
 
 Vals(p) == LET vs == SetToSeq(D!Values(p)) IN [i \in DOMAIN vs |-> [variant |-> vs[i][1], k |-> vs[i][2], json |-> D!Ser(p, vs[i])]]
 EmitPred == (stage = "done" /\ WellFormed) =>
-   PrintT(<<"PRED", ToJson([prog |-> prog, ts |-> D!Bind(prog), values |-> Vals(prog), model_ok |-> D!C01_Model(prog)])>>)
+   PrintT(<<"PRED", ToJson([prog |-> prog, ts |-> D!Bind(prog), params |-> D!Params(prog), root |-> D!Root(prog), values |-> Vals(prog), model_ok |-> D!C01_Model(prog)])>>)
 =============================================================================
